@@ -168,3 +168,60 @@ def bip39_from_entropy(ent: bytes, wordlist: List[str]) -> List[str]:
     bits = (int.from_bytes(ent, "big") << cs_len) | cs
     n = (ent_len + cs_len) // 11
     return [wordlist[(bits >> (11 * (n - 1 - i))) & 0x7FF] for i in range(n)]
+
+
+# ---- independent key derivation / signature verification (cryptography + py_ecc primitives) ------
+SECP256K1_N = 0xFFFFFFFFFFFFFFFFFFFFFFFFFFFFFFFEBAAEDCE6AF48A03BBFD25E8CD0364141
+P256_N = 0xFFFFFFFF00000000FFFFFFFFFFFFFFFFBCE6FAADA7179E84F3B9CAC2FC632551
+BLS_R = 52435875175126190479447740508185965837690552500527637822603658699938581184513
+CURVE_PK = {"ed": "edpk", "sp": "sppk", "p2": "p2pk", "BL": "BLpk"}
+CURVE_PKH = {"ed": "tz1", "sp": "tz2", "p2": "tz3", "BL": "tz4"}
+CURVE_SIG = {"ed": "edsig", "sp": "spsig", "p2": "p2sig", "BL": "BLsig"}
+
+
+def derive_public(curve: str, secret: bytes) -> bytes:
+    """secret: ed -> 32-byte seed; sp/p2 -> 32-byte big-endian scalar; BL -> 32-byte little-endian scalar."""
+    from cryptography.hazmat.primitives import serialization
+    from cryptography.hazmat.primitives.asymmetric import ec, ed25519
+    if curve == "ed":
+        k = ed25519.Ed25519PrivateKey.from_private_bytes(secret)
+        return k.public_key().public_bytes(serialization.Encoding.Raw, serialization.PublicFormat.Raw)
+    if curve in ("sp", "p2"):
+        c = ec.SECP256K1() if curve == "sp" else ec.SECP256R1()
+        k = ec.derive_private_key(int.from_bytes(secret, "big"), c)
+        return k.public_key().public_bytes(serialization.Encoding.X962, serialization.PublicFormat.CompressedPoint)
+    from py_ecc.bls.g2_primitives import G1_to_pubkey
+    from py_ecc.optimized_bls12_381 import G1, multiply
+    return bytes(G1_to_pubkey(multiply(G1, int.from_bytes(secret, "little"))))
+
+
+def verify_independent(curve: str, public: bytes, message: bytes, sig: bytes) -> bool:
+    from cryptography.exceptions import InvalidSignature
+    from cryptography.hazmat.primitives import hashes
+    from cryptography.hazmat.primitives.asymmetric import ec, ed25519, utils
+    digest = blake2b_32(message)
+    try:
+        if curve == "ed":
+            ed25519.Ed25519PublicKey.from_public_bytes(public).verify(sig, digest)
+            return True
+        if curve in ("sp", "p2"):
+            c = ec.SECP256K1() if curve == "sp" else ec.SECP256R1()
+            pk = ec.EllipticCurvePublicKey.from_encoded_point(c, public)
+            der = utils.encode_dss_signature(int.from_bytes(sig[:32], "big"), int.from_bytes(sig[32:], "big"))
+            pk.verify(der, digest, ec.ECDSA(utils.Prehashed(hashes.SHA256())))
+            return True
+    except (InvalidSignature, ValueError):
+        return False
+    # BLS MinPk, message augmentation: e(pk, H(pk || msg)) == e(g1, sig)
+    from hashlib import sha256 as _sha
+    from py_ecc.bls.g2_primitives import pubkey_to_G1, signature_to_G2
+    from py_ecc.bls.hash_to_curve import hash_to_G2
+    from py_ecc.optimized_bls12_381 import FQ12, G1, final_exponentiate, neg, pairing
+    try:
+        P = pubkey_to_G1(public)
+        S = signature_to_G2(sig)
+    except Exception:
+        return False
+    H = hash_to_G2(public + message, b"BLS_SIG_BLS12381G2_XMD:SHA-256_SSWU_RO_AUG_", _sha)
+    prod = pairing(S, neg(G1), final_exponentiate=False) * pairing(H, P, final_exponentiate=False)
+    return final_exponentiate(prod) == FQ12.one()
